@@ -269,3 +269,37 @@ def lemma_value_preserved(quoter, B, p):
     if qs and ch == 32:
         return unit == (43,)
     return v == ch and (not (ch < 128 and chr(ch) in protected) or literal)
+
+
+def lemma_output_is_canonical(quoter, B, p, C, q):
+    """C03: what a quoter writes is canonical text for the re-quoting quoter of the same
+    component -- each unit it emits, placed anywhere (C at q), is a canonical unit there"""
+    unit, k = q_step(quoter, B, p)
+    if len(unit) == 1:
+        return code_at(C, q) != unit[0] or canonical_unit_at(requoter_of(quoter), C, q)
+    if not (q + 2 < len(C) and code_at(C, q) == unit[0] and code_at(C, q + 1) == unit[1] and code_at(C, q + 2) == unit[2]):
+        return True
+    return canonical_unit_at(requoter_of(quoter), C, q)
+
+
+def requoter_of(quoter):
+    """the re-quoting instance that serves the same component"""
+    comp = QUOTERS[INSTANCE_NAME[id(quoter)]][0]
+    qs = INSTANCE_NAME[id(quoter)] in QS
+    for name, (c, rq) in QUOTERS.items():
+        if c == comp and rq and (name in QS) == qs:
+            for inst_id, nm in INSTANCE_NAME.items():
+                if nm == name and type(INSTANCE_OBJ[inst_id]) is type(quoter):
+                    return INSTANCE_OBJ[inst_id]
+    raise KeyError(comp)
+
+
+INSTANCE_OBJ = {}
+
+
+def lemma_out_requires(quoter, B, p, C, q):
+    return 0 <= p and p < len(B) and 0 <= q and q < len(C) and quoter_name(quoter) != "QUERY_PART_QUOTER"
+
+
+def quoter_name(quoter):
+    return INSTANCE_NAME[id(quoter)]
